@@ -30,7 +30,7 @@ def configs(tier):
         archs = [(1, 1), (2, 3), (3, 2), (2, 1)]
     else:
         archs = [(nv, nh) for nv in range(1, 6) for nh in range(1, 7)]
-    return [{"kind": k, "nv": nv, "nh": nh} for k in ("positive", "complex") for (nv, nh) in archs] + [{"generic": "every shape"}]
+    return [{"kind": k, "nv": nv, "nh": nh} for k in ("positive", "complex") for (nv, nh) in archs] + [{"generic": "every shape"}, {"lean": "size-generic lemmas"}]
 
 
 def canaries(tier):
@@ -64,6 +64,9 @@ def _mk_stub_energy(arr, log, nv):
 
 
 def run_config(ctx, cfg):
+    if cfg.get("lean"):
+        from contracts import leanlink
+        return leanlink.run(ctx, "C01")
     if cfg.get("generic"):
         from contracts import gsets
         return gsets.run(ctx, "C01")
